@@ -149,7 +149,7 @@ func (e *c19env) writerWork(shared dyn.Buf, lo, hi int, r *core.Rand, nOps int, 
 		case 2:
 			lens := make([]int, ch)
 			for i := range lens {
-				lens[i] = r.Range(0, frames+2)
+				lens[i] = r.Range(-1, 2*frames+3) // -1: nil channel; also longer than the window
 			}
 			ss := e.t.MakeSS(lens)
 			for ci := range lens {
@@ -297,8 +297,17 @@ func runC19(c *core.Ctx) {
 			for g := 0; g < R; g++ {
 				wantR[g] = e.readerWork(seq, ro, core.NewRand(c.Seed, core.HashStr(caseID), 100+uint64(g)), nOps, nil)
 			}
+			seqPanic := false
 			for wI := 0; wI < W; wI++ {
-				e.writerWork(seq, bounds[wI], bounds[wI+1], core.NewRand(c.Seed, core.HashStr(caseID), 200+uint64(wI)), nOps, int64(wI+1), nil, wconv)
+				if p, msg := core.Guard(func() {
+					e.writerWork(seq, bounds[wI], bounds[wI+1], core.NewRand(c.Seed, core.HashStr(caseID), 200+uint64(wI)), nOps, int64(wI+1), nil, wconv)
+				}); p {
+					c.Violate("writers["+t.Name+"]|panic", caseID, fmt.Sprintf("a writer confined to its own Slice(%d,%d) panicked in the sequential reference run: %s", bounds[wI], bounds[wI+1], msg), cfgD)
+					seqPanic = true
+				}
+			}
+			if seqPanic {
+				continue
 			}
 			gotR := make([]uint64, R)
 			var wg sync.WaitGroup
